@@ -430,6 +430,11 @@ func (r *Replica) tag() string {
 }
 
 // value builds the value for a shape code with fresh unique tags.
+type goStruct struct {
+	A string   `json:"a"`
+	B []string `json:"b"`
+}
+
 func (r *Replica) value(shape string) interface{} {
 	switch shape {
 	case "", "p":
@@ -451,6 +456,15 @@ func (r *Replica) value(shape string) interface{} {
 		return map[string]interface{}{"a": []interface{}{}, "b": r.tag(), "c": []interface{}{r.tag()}}
 	case "eam":
 		return []interface{}{[]interface{}{}, r.tag(), map[string]interface{}{}, r.tag()}
+	case "ga": // values of Go types that encoding/json turns into arrays, objects and strings
+		return [2]string{r.tag(), r.tag()}
+	case "gs":
+		return goStruct{A: r.tag(), B: []string{r.tag()}}
+	case "gp":
+		t := r.tag()
+		return &t
+	case "gm":
+		return map[string][1]string{"x": {r.tag()}}
 	case "k":
 		// the same value every time, on every replica: a write that does not change what the key or slot shows
 		return "same"
